@@ -3,7 +3,7 @@ import json
 import vpcore as v
 from vprun import Run
 
-EXPORT_POOLS = ["path", "attr", "horizon", "twice"]
+EXPORT_POOLS = ["path", "attr", "horizon", "twice", "history"]
 
 CFG = """SPECIFICATION Spec
 CONSTANTS
@@ -12,8 +12,10 @@ CONSTANTS
 INVARIANTS
   D_C09_MayAdvertise
   D_C09_Attrs
+  D_C09_Advertise
+  D_C09_Withdraw_KF
   D_C09_Canonical
-  D_C09_Inbound_KF
+  D_C09_Inbound
   Emit
 """
 
@@ -33,25 +35,26 @@ def enumerate_pool(run, pool, slice_):
 
 
 def bundle_known(behs):
-    """Inbound histories that the enumerator marks as meeting a listed known finding are bundled
-    into one trace per (local speaker, peer): each history gets its own prefix.  All other
-    histories stay one per trace (minimal replays).  The verdict is still made by the trace spec."""
+    """Cases that the enumerator marks as meeting a listed known finding are bundled into one trace
+    per (local speaker, peer): inbound histories get a prefix each, export cases are listed under
+    "cases".  All other cases stay one per trace (minimal replays).  The verdict is still made by
+    the trace spec."""
     plain, groups = [], {}
     for b in behs:
         o = json.loads(b)
         if o.get("kf"):
-            k = json.dumps([o["local"], o["peer"]], sort_keys=True)
+            k = json.dumps([o["mode"], o["local"], o["peer"]], sort_keys=True)
             groups.setdefault(k, []).append(o)
         else:
             plain.append(b)
     for k in sorted(groups):
         hs = groups[k]
-        steps = []
-        for i, h in enumerate(hs):
-            for s in h["steps"]:
-                steps.append({"pfx": i + 1, "route": s["route"]})
-        plain.append(json.dumps({"mode": "inbound", "local": hs[0]["local"], "peer": hs[0]["peer"],
-                                 "steps": steps, "kf": True, "bundle": len(hs)}))
+        head = {"mode": hs[0]["mode"], "local": hs[0]["local"], "peer": hs[0]["peer"], "kf": True, "bundle": len(hs)}
+        if hs[0]["mode"] == "inbound":
+            head["steps"] = [{"pfx": i + 1, "route": s["route"]} for i, h in enumerate(hs) for s in h["steps"]]
+        else:
+            head["cases"] = [{"route": h["route"], "olds": h.get("olds", []), "wd": h.get("wd", False)} for h in hs]
+        plain.append(json.dumps(head))
     return plain
 
 
@@ -59,7 +62,7 @@ def check_shape(behs, traces):
     """machinery check (not a verdict): every schedule produced its Reset line plus one line per step"""
     for b, t in zip(behs, traces):
         o = json.loads(b)
-        want = 3 if o["mode"] == "export" else 1 + len(o["steps"])
+        want = 1 + 2 * max(1, len(o.get("cases", []))) if o["mode"] == "export" else 1 + len(o["steps"])
         if len(t) != want:
             raise v.MachineryError("harness recorded %d lines for a schedule with %d steps" % (len(t), want - 1))
 
@@ -123,7 +126,7 @@ def main(run: Run):
     thorough = run.tier == "thorough"
     slice_ = "all" if thorough else "quick"
     for pool in EXPORT_POOLS:
-        behs = run.replay_behaviours(pool) if run.replay else enumerate_pool(run, pool, slice_)
+        behs = run.replay_behaviours(pool) if run.replay else bundle_known(enumerate_pool(run, pool, slice_))
         if not behs:
             continue
         traces = run.execute("c09", "pkg/server", "^TestVerifC09$", behs, tag="c09-" + pool)
@@ -135,7 +138,7 @@ def main(run: Run):
         traces = run.execute("c09", "pkg/server", "^TestVerifC09$", behs, tag="c09-inbound")
         check_shape(behs, traces)
         validate_group(run, traces, behs, "inbound")
-    run.extra["enumeration"] = ("every case of the MCExport pools (path, attr%s, horizon, twice, inbound) - exhaustive "
+    run.extra["enumeration"] = ("every case of the MCExport pools (path, attr%s, horizon, twice, history, inbound) - exhaustive "
                                 "over the abstract domains of spec/ExportDom.tla"
                                 % ("" if thorough else " [quick slice: 2 of 4 unknown-attribute sets]"))
 
